@@ -147,8 +147,19 @@ class World(object):
         name = "ks%d" % self._ks
         cls = ("org.apache.cassandra.locator." if prefixed else "") + strategy
         opts = dict((k, str(v)) for k, v in options.items())
-        self.metadata.keyspaces[name] = KeyspaceMetadata(name, True, cls, opts)
+        # the real schema-refresh path (CREATE KEYSPACE): Metadata._update_keyspace -> _keyspace_added
+        self.metadata._update_keyspace(KeyspaceMetadata(name, True, cls, opts))
         return name
+
+    def alter_keyspace(self, name, strategy, options, prefixed=False, drop_first=False):
+        """ALTER KEYSPACE (or DROP + CREATE) as a targeted keyspace refresh applies it: a new KeyspaceMetadata goes through
+        the real Metadata._update_keyspace / _drop_keyspace on the live Metadata and TokenMap."""
+        from cassandra.metadata import KeyspaceMetadata
+        cls = ("org.apache.cassandra.locator." if prefixed else "") + strategy
+        opts = dict((k, str(v)) for k, v in options.items())
+        if drop_first:
+            self.metadata._drop_keyspace(name)
+        self.metadata._update_keyspace(KeyspaceMetadata(name, True, cls, opts))
 
     def spec_replicas(self, strategy, options, key_token):
         """(ordered list of host indexes, set) according to Cassandra."""
@@ -198,7 +209,7 @@ def is_known_replay_duplicate(world, strategy, drv, want_set):
     return True
 
 
-def judge_world(ctx, world, configs, probes_per_ks, rng, origin, ks_names=None):
+def judge_world(ctx, world, configs, probes_per_ks, rng, origin, ks_names=None, prev_configs=None):
     """All keyspaces of one ring; every pool key is a probe (at / around / between / beyond).
     Returns the keyspace names; pass them back as ``ks_names`` to question the SAME keyspaces again."""
     pool = world.pool
@@ -240,7 +251,13 @@ def judge_world(ctx, world, configs, probes_per_ks, rng, origin, ks_names=None):
             nontrivial = len(world.locs) >= 2 and rf_total >= 1 and T >= 2
             ctx.case((struct, strategy, sorted(options.items()), start, kind), nontrivial=nontrivial)
             ctx.count("replica_lookups_compared")
-            if ks_names is not None:
+            if prev_configs is not None:
+                ctx.count("lookups_after_alter_keyspace")
+                p_strategy, p_options, _pp = prev_configs[ci]
+                before = world.spec_replicas(p_strategy, p_options, key_tok)[1] if T else None
+                if before is not None and before != want:
+                    ctx.count("lookups_whose_placement_shifted_with_the_replication_settings")
+            elif ks_names is not None:
                 ctx.count("lookups_after_relocation_and_rebuild")
                 if world.previous is not None and T:
                     from spec import placement as _pl
@@ -281,7 +298,10 @@ def judge_world(ctx, world, configs, probes_per_ks, rng, origin, ks_names=None):
                 continue
             # classify the set mismatch by mechanism
             mech = "nts-replica-set-mismatch" if strategy == "NetworkTopologyStrategy" else "simple-replica-set-mismatch"
-            if before is not None and set(drv) == before and before != want:
+            if prev_configs is not None and before is not None and set(drv) == before and before != want:
+                mech = "replicas-of-the-previous-replication-settings-after-keyspace-update"
+                witness["previous_settings"] = [prev_configs[ci][0], prev_configs[ci][1]]
+            elif before is not None and set(drv) == before and before != want:
                 mech = "replicas-of-the-previous-layout-after-rebuild_token_map"
                 witness["previous_hosts"] = dict(("h%d" % i, "%s/%s" % l) for i, l in sorted(world.previous[1].items()))
                 witness["previous_ring"] = [(token_string(world.part, t), "h%d" % o) for t, o in world.previous[0]]
@@ -296,6 +316,22 @@ def judge_world(ctx, world, configs, probes_per_ks, rng, origin, ks_names=None):
             ctx.violation(mech, "get_replicas(%s %s, key %s token) = %s, Cassandra places %s" % (
                 strategy, options, kind, witness["driver"], witness["cassandra"]), witness)
     return names
+
+
+def alter_round(ctx, world, configs, ks_names, probes_per_ks, rng, origin):
+    """Every keyspace (already questioned, so its replica map exists) gets the replication settings of its neighbour through
+    the real update path - ALTER KEYSPACE, or DROP + CREATE - and is questioned again: the answers must follow the NEW settings.
+    Returns the new configs."""
+    if len(configs) < 2:
+        return configs
+    shift = rng.randrange(1, len(configs))
+    new_configs = configs[shift:] + configs[:shift]
+    for name, (strategy, options, prefixed) in zip(ks_names, new_configs):
+        drop = rng.random() < 0.25
+        world.alter_keyspace(name, strategy, options, prefixed, drop_first=drop)
+        ctx.count("keyspaces_dropped_and_recreated" if drop else "keyspaces_altered")
+    judge_world(ctx, world, new_configs, probes_per_ks, rng, origin, ks_names=ks_names, prev_configs=configs)
+    return new_configs
 
 
 def relocation_round(ctx, world, configs, ks_names, probes_per_ks, rng, origin):
@@ -408,6 +444,9 @@ def exhaustive_part(ctx, n_hosts_max, worker, nworkers, sample_fraction=1.0):
                 ctx.count("exhaustive_rings")
                 if n >= 2 and (idx // nworkers) % 6 == 0:
                     relocation_round(ctx, world, configs, names, ppk, rng, "exhaustive-relocated")
+                elif n >= 2 and (idx // nworkers) % 6 == 3:
+                    c2 = alter_round(ctx, world, configs, names, ppk, rng, "exhaustive-altered")
+                    alter_round(ctx, world, c2, names, ppk, rng, "exhaustive-altered-twice")
     return idx
 
 
@@ -482,6 +521,8 @@ def run(ctx):
     ctx.assume("the layout the driver answers for must be the current one: on a share of rings 1-2 hosts change rack or datacenter "
                "(set_location_info or fresh Host objects with the same endpoints), rebuild_token_map is called on the same Metadata "
                "with the same (or, as a control, changed) token ownership and the same keyspaces are questioned again")
+    ctx.assume("keyspaces are created and altered through the real Metadata._update_keyspace / _drop_keyspace; on a share of rings every "
+               "keyspace already questioned gets other replication settings (ALTER, or DROP + CREATE, also twice) and is questioned again")
     ctx.assume("transient replication ('3/1') is not generated: whether transient replicas belong in the driver's list is a "
                "design choice, not placement")
     ctx.assume("NTS oracle = Cassandra 3.x/4.x calculateNaturalReplicas (rack-diverse with rf - rackCount repeats allowed), "
@@ -507,6 +548,10 @@ def run(ctx):
         configs = random_configs(rng, world, 6)
         names = judge_world(ctx, world, configs, probes_per_ks=14, rng=rng, origin="random")
         ctx.count("random_rings")
+        if len(world.locs) >= 2 and rng.random() < 0.35:
+            configs = alter_round(ctx, world, configs, names, 14, rng, "random-altered")
+            if rng.random() < 0.5:
+                configs = alter_round(ctx, world, configs, names, 14, rng, "random-altered-twice")
         if len(world.locs) >= 2 and rng.random() < 0.4:
             relocation_round(ctx, world, configs, names, 14, rng, "random-relocated")
             if rng.random() < 0.3:
@@ -527,6 +572,8 @@ def run(ctx):
     ctx.floor_counters = {"replica_lookups_compared": 100000, "nts_lookups": 60000, "simple_strategy_lookups": 10000,
                           "probe_at": 20000, "probe_between": 5000, "probe_beyond-last": 1000, "probe_before-first": 1000,
                           "lookups_on_multi_token_rings": 30000, "exhaustive_rings": 2000, "random_rings": 400,
+                          "keyspaces_altered": 2000, "keyspaces_dropped_and_recreated": 500, "lookups_after_alter_keyspace": 20000,
+                          "lookups_whose_placement_shifted_with_the_replication_settings": 5000,
                           "relocations": 400, "lookups_after_relocation_and_rebuild": 20000,
                           "lookups_whose_placement_shifted_with_the_layout": 3000,
                           "relocations_through_set_location_info": 100, "relocations_with_fresh_host_objects": 100}
